@@ -18,6 +18,12 @@ constructors x containers
   array, list of lists, dict with numpy keys, int32 / int64 / gap_lengths arrays): the spec builds
   the same map for all of them, the harness builds the real object each way and reads it back in
   full (entries, parent_length, len, num_spans, get_coordinates / every Describe observation).
+aliasing with the caller
+  CallerWritesArgument / CallerWritesReturned: after a map was built the caller writes in place into
+  what it handed to the constructor (arrays, lists, dict) or into what a query handed back (gap_pos,
+  cum_gap_lengths, the arrays / lists of get_gap_lengths, get_gap_align_coordinates,
+  get_gap_coordinates, get_coordinates); the write may be refused or go through, the map must still
+  be Describe(g) (a stuttering step for the map).
 histories on one object
   IndelMap.tla separates the receiver g from the returned map `out`; a call leaves g unchanged
   (ReadOnlyOpsPreserveReceiver), Adopt continues the history on the returned, derived map.  The
@@ -198,16 +204,28 @@ def indel_one(rec, ctors, fails, stats, samples):
     desc, bad = _G["desc"], _G["bad"]
     act, args = rec["act"], rec["args"]
     f, t = tuple(rec["from"]), tuple(rec["to"])
-    if act == "Build":
-        # constructor x container of its argument: the map built is Describe(g) for all of them
-        ctor, container = args
+    if act in ("Build", "CallerWritesArgument", "CallerWritesReturned"):
+        # constructor x container of its argument: the map built is Describe(g) for all of them, and
+        # stays so when the caller later writes into what it handed over / was handed back
+        what = args[0] if act == "CallerWritesReturned" else None
+        ctor, container = args[-2:]
         stats["executions"] += 1
         stats["records"] += 1
-        stats["act:Build"] += 1
-        key = f"IndelMap:Build:ctor={ctor}:container={container}:{M.layout(f)}"
-        base = {"spec": "IndelMap", "string": M.gapped_text(f), "bits": list(f), "constructor": ctor, "container": container}
+        stats["act:" + act] += 1
+        key = f"IndelMap:{act}:" + (f"returned={what}:" if what else "") + f"ctor={ctor}:container={container}:{M.layout(f)}"
+        base = {"spec": "IndelMap", "act": act, "string": M.gapped_text(f), "bits": list(f), "constructor": ctor, "container": container, "returned": what}
         try:
-            m = M.build_indelmap_container(list(f), ctor, container, desc[f])
+            kept = []
+            m = M.build_indelmap_container(list(f), ctor, container, desc[f], kept)
+            if act == "CallerWritesArgument":
+                outcome = [M.scribble(x) for x in kept]
+            elif act == "CallerWritesReturned":
+                outcome = [M.scribble(M.im_returned(m, what))]
+            else:
+                outcome = []
+            for o in outcome:
+                stats["caller_write_" + o] += 1
+            base["caller_write"] = outcome
             obs = M.im_observe(m)
         except Exception as ex:
             fails.add(f"{key}:exception={type(ex).__name__}", {**base, "exception": repr(ex), "traceback": traceback.format_exc()[-1200:]})
@@ -454,6 +472,7 @@ def indel_phase(run: Run, scratch):
             "executions_shared_by_constructors_with_identical_arrays": total["shared_executions"],
             "skipped_ctor_misbuilt_input": total["skipped_ctor_misbuilt_input"],
             "results_deep_observed": total["deep_observed"],
+            "caller_writes": {k[13:]: v for k, v in sorted(total.items()) if k.startswith("caller_write_")},
             "emitted_records": len(lines),
         },
     )
@@ -497,7 +516,7 @@ def history_one(gkey, fails, stats, samples):
     g = tuple(json.loads(gkey))
     rnd = random.Random(f"{_G['seed']}:{gkey}")
     ops = [parse(lines[i]) for i in _G["by_from"].get(gkey, ())]
-    ops = [r for r in ops if r["act"] != "Build"]  # constructors are not calls on the receiver
+    ops = [r for r in ops if r["act"] not in ("Build", "CallerWritesArgument", "CallerWritesReturned")]  # not calls on the receiver
     if not ops:
         return
     exp_g = _expected(g)
@@ -633,18 +652,22 @@ def history_phase(run: Run):
 
 
 # =================================================================== FeatureMap
-def fm_build(mdef, args, allowed, fails, stats):
-    """Build action: the spans / locations handed to the constructor in the given container."""
+def fm_build(mdef, act, args, allowed, fails, stats):
+    """Build / CallerWritesArgument: the spans / locations handed to the constructor in the given
+    container (and, for the latter, overwritten in place by the caller afterwards)."""
     container = args[0]
     stats["executions"] += 1
     stats["records"] += 1
-    stats["act:Build"] += 1
+    stats["act:" + act] += 1
     if mdef["spans"]:
         stats["nontrivial"] += 1
-    key = f"FeatureMap:Build:container={container}:{M.fm_class(mdef, 'Build', args)}"
-    base = {"spec": "FeatureMap", "from": mdef, "act": "Build", "container": container, "allowed": allowed}
+    key = f"FeatureMap:{act}:container={container}:{M.fm_class(mdef, 'Build', args)}"
+    base = {"spec": "FeatureMap", "from": mdef, "act": act, "container": container, "allowed": allowed}
     try:
-        m = M.build_featuremap_container(mdef, container)
+        kept = []
+        m = M.build_featuremap_container(mdef, container, kept)
+        if act == "CallerWritesArgument":
+            base["caller_write"] = [M.scribble(x) for x in kept[-1:]]
         val, outside = M.fm_project(m, "Build")
         extra = {"num_spans": int(m.num_spans), "spans_listed": len(list(m.spans)), "coords": [[int(a), int(b)] for a, b in m.get_coordinates()], "useful": bool(m.useful)}
     except M.AbsurdLength as ex:
@@ -668,8 +691,8 @@ def fm_build(mdef, args, allowed, fails, stats):
 
 
 def fm_execute(mdef, act, args, allowed, fails, stats, samples):
-    if act == "Build":
-        return fm_build(mdef, args, allowed, fails, stats)
+    if act in ("Build", "CallerWritesArgument"):
+        return fm_build(mdef, act, args, allowed, fails, stats)
     executed, outcomes = [], {}
     cache = _G.setdefault("fm_maps", {})
     mkey = skey(mdef)
